@@ -1137,6 +1137,14 @@ func (g *generatorObject) _return(v Value) Value {
 	g.state = genStateExecuting
 	g.gen.enterNext()
 	entered := true
+	defer func() {
+		if entered {
+			// a panic is leaving the generator (e.g. closing the iterator of a for-of that is not protected
+			// by a handler of the body threw in enterNextFinallyFrame()): the generator has completed
+			g.delegated = nil
+			g.state = genStateCompleted
+		}
+	}()
 	defer g.gen.unwindOnPanic(&entered)
 	canContinue := g.gen.enterNextFinallyFrame()
 	if !canContinue {
